@@ -125,6 +125,18 @@ Theorem c04_close_order : forall fl cap pre evs post,
 Proof. exact (close_order current). Qed.
 Print Assumptions c04_close_order.
 
+(* Metadata of any variant (base time, upstream / downstream open, resume, normal or abnormal close)
+   never touches the alias tables, the alias generators, the ack buffers or the chunk queue: an
+   alias, once issued, stays what it is whatever metadata arrives or is read while chunks of that
+   upstream are still queued. *)
+Theorem c04_metadata_keeps_aliases : forall s e,
+  (exists m, e = ArriveMeta m) \/ (exists p, e = ReadMeta p) ->
+  d_tabs (fst (dstep s e)) = d_tabs s /\ d_bufs (fst (dstep s e)) = d_bufs s /\
+  d_inbox (fst (dstep s e)) = d_inbox s /\
+  reads_of (snd (dstep s e)) = [] /\ acks_of (snd (dstep s e)) = [].
+Proof. exact meta_keeps_tables. Qed.
+Print Assumptions c04_metadata_keeps_aliases.
+
 (* ---------------- the former code (before the repairs); kept as statements about the model's
    former variants ---------------- *)
 
